@@ -24,4 +24,28 @@ PROPS = {
             "trichotomy assumes int/uint->float conversions never produce NaN (FloatOps.ConvNoNaN)",
         ],
     },
+    "C17": {
+        "lean": ["UgoVerif.Props.C17"],
+        "gen": ["JsonTables.lean"],
+        "streams": ["json"],
+        "required_theorems": ["escape_valid", "escape_valid_doc", "marshal_valid_partial", "marshal_valid_rawfree",
+                              "encode_valid", "marshal_unsupported_is_error", "marshal_toplevel_error_empty",
+                              "marshal_full_false", "C17_full_false", "valid_no_panic", "indent_no_panic"],
+        "trusted": [
+            "Spec/Json.lean: RFC 8259 recogniser isJson (fuel = length + 1); compared with encoding/json.Valid on every byte string of stream `json`",
+            "hand models Model/JsonEnc.lean (Marshal), Model/JsonScan.lean (scanner, Valid, Compact, Indent), Go/Utf8.lean (utf8.DecodeRune), tied by stream `json`",
+            "JsonLib: strconv.AppendFloat is a parameter; hypothesis JsonLib.OK (text written for a finite float is a JSON number token made of bytes that need no escaping) is checked by the driver on every float of the stream",
+            "strconv.AppendInt/AppendUint and base64.StdEncoding are modelled concretely (fmtInt, fmtNat, base64) and tied by the stream",
+        ],
+        "assumptions": [
+            "JsonLib.OK (strconv.AppendFloat 'f'/'e' output, after the e-0N clean-up, is a JSON number token)",
+            "values are finite trees: cycle detection (ptrLevel/ptrSeen) is outside the model",
+            "raw messages (bytes returned by a Marshaler) are covered by marshal_valid_partial only under CompactWritesValue; TextMarshaler objects and stdlib/time values are outside the modelled value set",
+            "agreement with encoding/json (same bytes, same accepted documents, Compact/Indent/Unmarshal results) is established by differential sampling, not by proof; the decoder (decode.go) is not modelled",
+        ],
+        "partial": [
+            "marshal_valid_partial: hypotheses isTopErr v = false (open finding C17:marshal-empty:toplevel-error-value, refutation marshal_full_false) and rawsOK CompactWritesValue v (compact validity not proved)",
+            "C17_full: scanner_sound/scanner_complete, compact/indent validity and the Unmarshal round trip are stated/tested, not proved; of the scanner only valid_no_panic / indent_no_panic are proved (compact's slice bounds are not)",
+        ],
+    },
 }
